@@ -7,7 +7,7 @@
    T4  newline versus semicolon as terminator of a one-word value
    T5  '!' disables exactly the construct it precedes *)
 From Coq Require Import List Ascii String Bool Arith ZArith Lia.
-From Phil Require Import Base Tokenizer Tree Parser LexProofs ParserTotal.
+From Phil Require Import Base Tokenizer Tree Parser LexProofs QuoteProofs ParserTotal.
 Import ListNotations.
 Local Open Scope char_scope.
 
@@ -174,7 +174,7 @@ Proof.
   destruct (cobj_fuel_le o f (f + k) s line nid stop start prev active acc ltac:(lia)) as [E|E]; congruence.
 Qed.
 
-(* ---------- the readers never move backwards (no oracle hypothesis, any fuel) *)
+(* ---------- the readers never move backwards (nothing asked of the oracle, any fuel) *)
 Lemma caw_len : forall f s line hc last acc lead ws s' l',
   caw f s line hc last acc lead = Ok (ws, s', l') -> length s' <= length s.
 Proof.
@@ -765,6 +765,33 @@ Proof.
     destruct (assign_def_attr o an ws); reflexivity.
 Qed.
 
+(* the same for a scope attribute in a scope header: "!.attr = words" is read and dropped *)
+Theorem bang_scope_attr : forall o f an l0 s line acc eqw r l ws r2 l2 w2 r3 l3,
+  let aw := mkword ("." :: an) QN l0 in
+  mems an scope_attr_names = true ->
+  pop_unq s0 s line = Ok (eqw, r, l) -> expect_eq eqw = Ok tt ->
+  caw (S (length r)) r l false aw [] aw = Ok (ws, r2, l2) ->
+  pop_unq s0 r2 l2 = Ok (w2, r3, l3) ->
+  sattrs o (S f) (mkword ("!" :: "." :: an) QN l0) s line acc = sattrs o f w2 r3 l3 acc
+  /\ sattrs o (S f) aw s line acc
+     = (do av <- assign_scope_attr o an ws ; sattrs o f w2 r3 l3 (set_attr an av acc)).
+Proof.
+  intros o f an l0 s line acc eqw r l ws r2 l2 w2 r3 l3 aw Hm Hp He Hc Hp2. split.
+  - cbn [sattrs wv wline].
+    change (eqs ("!" :: "." :: an) ["{"]) with false. cbv iota.
+    change (strip_bang ("!" :: "." :: an)) with ("." :: an, true). cbv iota.
+    change (Ascii.eqb "." ".") with true. rewrite Hm. cbn [andb].
+    rewrite Hp. cbn [bind]. rewrite He. cbn [bind]. fold aw. rewrite Hc. cbn [bind].
+    rewrite Hp2. reflexivity.
+  - unfold aw at 1. cbn [sattrs wv wline].
+    change (eqs ("." :: an) ["{"]) with false. cbv iota.
+    change (strip_bang ("." :: an)) with ("." :: an, false). cbv iota.
+    change (Ascii.eqb "." ".") with true. rewrite Hm. cbn [andb].
+    rewrite Hp. cbn [bind]. rewrite He. cbn [bind]. fold aw. rewrite Hc. cbn [bind].
+    destruct (assign_scope_attr o an ws); cbn [bind]; try reflexivity.
+    rewrite Hp2. reflexivity.
+Qed.
+
 (* ====================================================================================== *)
 (* 4. T4: newline versus semicolon as the terminator of a value (one-word value)             *)
 (* ====================================================================================== *)
@@ -1240,8 +1267,12 @@ Proof. intros k line line2 prev' prev Hle [H|[H1 H2]]; [left; exact H|right; lia
 Definition Rpos (k line:nat) (x' x:str * nat) : Prop :=
   let '(r', l') := x' in let '(r, l) := x in r' = r /\ l' = l + k /\ line <= l.
 
+(* ... or it does not matter because the next word is not a "#phil" directive *)
+Definition not_directive (s:str) (line:nat) : Prop :=
+  match nw s0 false s line with TWord lead _ _ => eqs (wv lead) intro = false | _ => True end.
+
 Lemma cobj_shift : forall o k f s line nid stop start' start prev' prev active' active acc' acc,
-  1 <= line -> rel_prev k line prev' prev ->
+  1 <= line -> rel_prev k line prev' prev \/ not_directive s line ->
   option_map ew start' = option_map ew start ->
   option_map erase_lines active' = option_map erase_lines active ->
   map erase_lines acc' = map erase_lines acc ->
@@ -1276,20 +1307,28 @@ Proof.
     change (isq (shw k lead)) with (isq lead). change (str_of_word (shw k lead)) with (str_of_word lead).
     cbn [shw wv wline].
     destruct (isq lead); [apply rrel_E|].
-    rewrite (rel_prev_test k line prev' prev (wline lead) Hprev Hwl).
-    destruct (eqs (wv lead) intro && negb (wline lead =? prev)%nat).
-    { eapply rrel_bind; [apply pop_unq_shift|].
+    assert (Htest : eqs (wv lead) intro && negb (wline lead + k =? prev')%nat
+                    = eqs (wv lead) intro && negb (wline lead =? prev)%nat).
+    { destruct Hprev as [Hp|Hp]; [rewrite (rel_prev_test k line prev' prev (wline lead) Hp Hwl); reflexivity|].
+      unfold not_directive in Hp. rewrite En in Hp. rewrite Hp. reflexivity. }
+    rewrite Htest. clear Htest.
+    destruct (eqs (wv lead) intro && negb (wline lead =? prev)%nat) eqn:Edir.
+    { assert (Hprev1 : rel_prev k line prev' prev).
+      { destruct Hprev as [Hp|Hp]; [exact Hp|]. unfold not_directive in Hp. rewrite En in Hp.
+        rewrite Hp in Edir. discriminate Edir. }
+      clear Hprev. rename Hprev1 into Hprev.
+      eapply rrel_bind; [apply pop_unq_shift|].
       intros [[w' r2'] l2'] [[w r2] l2] (-> & -> & -> & _ & Hl2). cbn [shw wv wline].
       destruct (eqs (wv w) f_end); [destruct stop; [exact Hnm|apply Hend; lia]|].
       destruct (eqs (wv w) f_on).
-      { eapply rrel_mono; [|apply IH; try assumption; [lia|eapply rel_prev_mono; [|exact Hprev]; lia]].
+      { eapply rrel_mono; [|apply IH; [lia|left; eapply rel_prev_mono; [|exact Hprev]; lia|assumption|assumption|assumption]].
         intros x' x. apply Rcobj_mono. lia. }
       destruct (negb (eqs (wv w) f_off)); [apply rrel_E|].
       rewrite sfs_shift. destruct (sfs (S (length r2)) r2 l2) as [[r3 l3] fu] eqn:Es. cbn [sh3].
       pose proof (sfs_ge _ _ _ _ _ _ Es) as Hl3.
       assert (Hrec : rrel (Rcobj k line) (cobj o f r3 (l3 + k) nid stop start' prev' active' acc')
                                          (cobj o f r3 l3 nid stop start prev active acc)).
-      { eapply rrel_mono; [|apply IH; try assumption; [lia|eapply rel_prev_mono; [|exact Hprev]; lia]].
+      { eapply rrel_mono; [|apply IH; [lia|left; eapply rel_prev_mono; [|exact Hprev]; lia|assumption|assumption|assumption]].
         intros x' x. apply Rcobj_mono. lia. }
       destruct fu as [[|n]|]; try exact Hrec.
       destruct stop; [exact Hnm|apply Hend; lia]. }
@@ -1306,10 +1345,10 @@ Proof.
       intros [[[sa' bw'] r3'] l3'] [[[sa bw] r3] l3] (-> & -> & -> & -> & Hl3).
       eapply rrel_bind.
       { apply (IH r3 l3 (S nid) true (Some (shw k bw)) (Some bw) 0 0 None None [] []);
-          [lia|right; lia|reflexivity|reflexivity|reflexivity]. }
+          [lia|left; right; lia|reflexivity|reflexivity|reflexivity]. }
       intros [[[kids' r4'] l4'] nid4'] [[[kids r4] l4] nid4] (Hk & -> & -> & -> & Hl4).
       destruct (prefix_reserved lv); [apply rrel_E|].
-      eapply rrel_mono; [|apply IH; try assumption; [lia|left; reflexivity| ]].
+      eapply rrel_mono; [|apply IH; [lia|left; left; reflexivity|assumption|reflexivity| ]].
       { intros x' x. apply Rcobj_mono. lia. }
       cbn [map]. rewrite Hfl, !erase_adopt. cbn [erase_lines]. rewrite Hk. reflexivity. }
     destruct (negb (prefixb ["."] lv)).
@@ -1325,7 +1364,7 @@ Proof.
       intros [[ws' r6'] l6'] [[ws r6] l6] (-> & -> & -> & Hl6).
       destruct (name_reserved_def lv); [apply rrel_E|].
       destruct (prefix_reserved lv); [apply rrel_E|].
-      eapply rrel_mono; [|apply IH; try assumption; [lia|left; reflexivity| ]].
+      eapply rrel_mono; [|apply IH; [lia|left; left; reflexivity|assumption| |exact Hfl]].
       { intros x' x. apply Rcobj_mono. lia. }
       cbn [option_map]. rewrite !erase_adopt. cbn [erase_lines]. rewrite map_ew_shw. reflexivity. }
     destruct active' as [ad'|], active as [ad|]; cbn [option_map] in Hact; try discriminate; [|apply rrel_E].
@@ -1341,8 +1380,857 @@ Proof.
       eapply rrel_bind; [apply assign_def_attr_words; apply map_ew_shw|]. intros ? av ->.
       cbn [rrel]. rewrite !erase_attach. inversion Hact as [Ha]. rewrite Ha. reflexivity. }
     intros ad2' ad2 Had2.
-    eapply rrel_mono; [|apply IH; try assumption; [lia|left; reflexivity| ]].
+    eapply rrel_mono; [|apply IH; [lia|left; left; reflexivity|assumption| |assumption]].
     { intros x' x. apply Rcobj_mono. lia. }
     cbn [option_map]. rewrite Had2. reflexivity.
   - apply rrel_E.
 Qed.
+
+(* ====================================================================================== *)
+(* 7. T3 (document level): blank lines and comment lines in front of a document             *)
+(* ====================================================================================== *)
+
+Definition objs_of (r:res (list obj * str * nat * nat)) : res (list obj) :=
+  do (objs, _, _, _) <- r ; Ok objs.
+Lemma parse_objs_of : forall o s, parse o s = objs_of (cobj o (S (S (length s))) s 1 1 false None 0 None []).
+Proof. reflexivity. Qed.
+Lemma objs_of_noline : forall r' r, cobj_noline r' = cobj_noline r -> objs_of r' = objs_of r.
+Proof.
+  intros [[[[a' b'] x'] d']|? ? ?|?] [[[[a b] x] d]|? ? ?|?] H; cbn [cobj_noline] in H; try discriminate; inversion H; reflexivity.
+Qed.
+Lemma objs_of_rrel : forall k line r' r, rrel (Rcobj k line) r' r -> erase_res (objs_of r') = erase_res (objs_of r).
+Proof.
+  intros k line [[[[a' b'] x'] d']|? ? ?|?] [[[[a b] x] d]|? ? ?|?] H; cbn [rrel Rcobj] in H; try contradiction.
+  - destruct H as (H & _). cbn [objs_of bind erase_res]. rewrite H. reflexivity.
+  - destruct H as [-> ->]. reflexivity.
+  - subst. reflexivity.
+Qed.
+
+(* the same document read from line 1+k instead of line 1: same trees modulo lines *)
+Lemma cobj_top_shift : forall o k f s,
+  erase_res (objs_of (cobj o f s (1 + k) 1 false None 0 None []))
+  = erase_res (objs_of (cobj o f s 1 1 false None 0 None [])).
+Proof.
+  intros o k f s. eapply objs_of_rrel.
+  apply (cobj_shift o k f s 1 1 false None None 0 0 None None [] []);
+    [lia|left; right; lia|reflexivity|reflexivity|reflexivity].
+Qed.
+
+(* a layout prefix: any sequence of blanks (including newlines) and whole comment lines *)
+Inductive layout : str -> Prop :=
+  | layout_nil : layout []
+  | layout_blank : forall c p, isspace c = true -> layout p -> layout (c :: p)
+  | layout_comment : forall body p, mem nl body = false -> prefixb (s_ "phil") body = false ->
+      layout p -> layout ("#" :: body ++ nl :: p).
+
+Lemma prefixb_app_nl : forall m body p, mem nl m = false -> prefixb m body = false ->
+  prefixb m (body ++ nl :: p) = false.
+Proof.
+  induction m as [|a m IH]; intros body p Hm H; [discriminate H|].
+  cbn [mem] in Hm. apply orb_false_iff in Hm as [Ha Hm].
+  destruct body as [|b body]; cbn [app prefixb] in *.
+  - rewrite Ascii.eqb_sym, Ha. reflexivity.
+  - destruct (Ascii.eqb a b); [cbn [andb] in *; apply IH; assumption|reflexivity].
+Qed.
+Lemma count_nl_none : forall s, mem nl s = false -> count_nl s = 0.
+Proof.
+  induction s as [|c s IH]; intros H; [reflexivity|]. cbn [mem] in H. apply orb_false_iff in H as [H1 H2].
+  cbn [count_nl]. rewrite Ascii.eqb_sym, H1, (IH H2). reflexivity.
+Qed.
+
+Lemma layout_nw : forall p, layout p -> forall s line,
+  nw s0 false (p ++ s) line = nw s0 false s (line + count_nl p).
+Proof.
+  intros p Hp; induction Hp as [|c p Hc Hp IH|body p Hb Hph Hp IH]; intros s line.
+  - cbn [app count_nl]. rewrite Nat.add_0_r. reflexivity.
+  - change ((c :: p) ++ s) with ([c] ++ (p ++ s)).
+    rewrite (nw_skip_blanks s0 [c] (p ++ s) line) by (cbn [forallb]; rewrite Hc; reflexivity).
+    rewrite IH. f_equal. cbn [count_nl]. lia.
+  - replace (("#" :: body ++ nl :: p) ++ s) with ("#" :: body ++ nl :: (p ++ s))
+      by (cbn [app]; rewrite <- app_assoc; reflexivity).
+    rewrite nw_s0_comment; [|exact Hb|apply prefixb_app_nl; [reflexivity|exact Hph]].
+    rewrite IH. f_equal. rewrite count_nl_cons, count_nl_app, count_nl_cons, (count_nl_none body Hb).
+    change (nlc "#") with 0. change (nlc nl) with 1. lia.
+Qed.
+
+(* T3, any object at any depth: a layout prefix before the object is skipped, exactly *)
+Theorem cobj_layout_noline : forall o f p s line nid stop start prev active acc, layout p ->
+  cobj_noline (cobj o f (p ++ s) line nid stop start prev active acc)
+  = cobj_noline (cobj o f s (line + count_nl p) nid stop start prev active acc).
+Proof.
+  intros o f p s line nid stop start prev active acc Hp. destruct f as [|f]; [reflexivity|].
+  apply cobj_pos_ext_noline. apply layout_nw; exact Hp.
+Qed.
+Theorem cobj_layout : forall o f p s line nid stop start prev active acc, layout p ->
+  (stop = true \/ count_nl p = 0 \/ nw s0 false s (line + count_nl p) <> TEnd) ->
+  cobj o f (p ++ s) line nid stop start prev active acc
+  = cobj o f s (line + count_nl p) nid stop start prev active acc.
+Proof.
+  intros o f p s line nid stop start prev active acc Hp Hc. destruct f as [|f]; [reflexivity|].
+  apply cobj_pos_ext; [apply layout_nw; exact Hp|]. rewrite (layout_nw p Hp s line).
+  destruct Hc as [Hc|[Hc|Hc]]; [left; exact Hc|right; left; lia|right; right; exact Hc].
+Qed.
+
+(* T3, document level: a layout prefix in front of a document changes nothing but line numbers *)
+Theorem parse_layout_prefix : forall o p s, layout p ->
+  erase_res (parse o (p ++ s)) = erase_res (parse o s).
+Proof.
+  intros o p s Hp. rewrite !parse_objs_of.
+  rewrite (objs_of_noline _ _ (cobj_layout_noline o _ p s 1 1 false None 0 None [] Hp)).
+  rewrite (cobj_fuel_enough o (S (S (length (p ++ s)))) (S (S (length s))) s) by (rewrite ?app_length; lia).
+  apply cobj_top_shift.
+Qed.
+
+Lemma layout_blanks : forall b, forallb isspace b = true -> layout b.
+Proof.
+  induction b as [|c b IH]; intros H; [constructor|]. cbn [forallb] in H. apply andb_prop in H as [H1 H2].
+  constructor; auto.
+Qed.
+Corollary parse_leading_blanks : forall o blanks s, forallb isspace blanks = true ->
+  erase_res (parse o (blanks ++ s)) = erase_res (parse o s).
+Proof. intros. apply parse_layout_prefix. apply layout_blanks. assumption. Qed.
+Corollary parse_leading_comment : forall o body s,
+  mem nl body = false -> prefixb (s_ "phil") body = false ->
+  erase_res (parse o ("#" :: body ++ nl :: s)) = erase_res (parse o s).
+Proof.
+  intros o body s Hb Hp.
+  replace ("#" :: body ++ nl :: s) with (("#" :: body ++ [nl]) ++ s)
+    by (cbn [app]; rewrite <- app_assoc; reflexivity).
+  apply parse_layout_prefix. constructor; [exact Hb|exact Hp|constructor].
+Qed.
+
+(* ====================================================================================== *)
+(* 8. T4 at the level of a definition: "name=value;rest" versus "name=value<newline>rest"   *)
+(* ====================================================================================== *)
+
+(* one [cobj] iteration on a definition "name=..." spelled without blanks around the "=" *)
+Lemma cobj_def_unfold : forall o f name tl line nid stop start prev active acc,
+  is_ident name = true -> eqs name include_w = false ->
+  cobj o (S f) (name ++ "=" :: tl) line nid stop start prev active acc
+  = (do (ws, r6, l6) <- caw (S (length tl)) tl line false (mkword name QN line) [] (mkword name QN line) ;
+     if name_reserved_def name then E "Reserved" name line else
+     if prefix_reserved name then E "Reserved" name 0 else
+     cobj o f r6 l6 (S nid) stop start line
+       (Some (adopt (Def (mkhdr name false 0 false nid line) ws []))) (flushed active acc)).
+Proof.
+  intros o f name tl line nid stop start prev active acc Hi Hinc.
+  destruct (nw_s0_ident name ("=" :: tl) line Hi eq_refl) as (c & w & -> & Hs & Hb & Hdot & Hn).
+  cbn [cobj]. rewrite Hn. cbn [isq wq wv wline].
+  destruct (lead_tests_plain c w Hs Hb) as (P1 & P2 & P3 & P4).
+  rewrite P1, P2, P3, P4. cbn [andb]. rewrite !andb_false_r.
+  change (pop s0 ("=" :: tl) line) with (Ok (mkword ["="] QN line, tl, line) : res (word * str * nat)).
+  cbn [bind].
+  match goal with |- (if ?b then _ else _) = _ => change b with false end. cbv iota.
+  assert (Hd : prefixb ["."] (c :: w) = false).
+  { cbn [prefixb]. rewrite Ascii.eqb_sym. apply Ascii.eqb_neq in Hdot. rewrite Hdot. reflexivity. }
+  rewrite Hd, Hi, Hinc. cbn [negb].
+  change (pop_unq s0 ("=" :: tl) line) with (Ok (mkword ["="] QN line, tl, line) : res (word * str * nat)).
+  cbn [bind]. change (expect_eq (mkword ["="] QN line)) with (Ok tt : res unit). cbn [bind].
+  reflexivity.
+Qed.
+
+(* results of two [cobj] runs that agree on everything but line numbers *)
+Definition Rcobj0 (x' x:list obj * str * nat * nat) : Prop :=
+  let '(objs', r', _, n') := x' in let '(objs, r, _, n) := x in
+  map erase_lines objs' = map erase_lines objs /\ r' = r /\ n' = n.
+Lemma rrel0_compose : forall k line X Y Z,
+  cobj_noline X = cobj_noline Y -> rrel (Rcobj k line) Y Z -> rrel Rcobj0 X Z.
+Proof.
+  intros k line [[[[a1 b1] x1] d1]|? ? ?|?] [[[[a2 b2] x2] d2]|? ? ?|?] [[[[a3 b3] x3] d3]|? ? ?|?] HX HY;
+    cbn [cobj_noline] in HX; try discriminate HX; cbn [rrel Rcobj Rcobj0] in *; try contradiction.
+  - injection HX as -> -> ->. destruct HY as (HY & -> & _ & -> & _). auto.
+  - injection HX as -> -> _. exact HY.
+  - injection HX as ->. exact HY.
+Qed.
+Lemma objs_of_rrel0 : forall r' r, rrel Rcobj0 r' r -> erase_res (objs_of r') = erase_res (objs_of r).
+Proof.
+  intros [[[[a' b'] x'] d']|? ? ?|?] [[[[a b] x] d]|? ? ?|?] H; cbn [rrel Rcobj0] in H; try contradiction.
+  - destruct H as (H & _). cbn [objs_of bind erase_res]. rewrite H. reflexivity.
+  - destruct H as [-> ->]. reflexivity.
+  - subst. reflexivity.
+Qed.
+
+(* T4 for a definition with a one-word value, at any [cobj] iteration (any depth, any state):
+   terminating the value with a newline instead of a semicolon yields the same objects, the same
+   remaining input and ids, and the same errors - up to line numbers. *)
+Theorem def_semicolon_newline : forall o f name v w1 rest line nid stop start prev active acc,
+  1 <= line -> is_ident name = true -> eqs name include_w = false ->
+  (forall t, delim s1 t = true -> nw s1 false (v ++ t) line = TWord w1 t line) ->
+  val_word w1 = true -> wline w1 = line ->
+  next_starts_object rest (S line) = true -> not_directive rest line ->
+  rrel Rcobj0 (cobj o (S f) (name ++ "=" :: v ++ nl :: rest) line nid stop start prev active acc)
+              (cobj o (S f) (name ++ "=" :: v ++ ";" :: rest) line nid stop start prev active acc).
+Proof.
+  intros o f name v w1 rest line nid stop start prev active acc Hline Hi Hinc Hv Hval Hwl Hnext Hnd.
+  rewrite !cobj_def_unfold by assumption.
+  assert (Hlen : forall term, length (v ++ term :: rest) = S (length v + length rest))
+    by (intros; rewrite app_length; cbn [length]; lia).
+  rewrite !Hlen.
+  destruct (caw_semicolon_newline_single (length v + length rest) v w1 rest line
+              (mkword name QN line) [] (mkword name QN line) Hv Hval) as (p & Hsemi & Hnl & Hp);
+    [cbn [wline]; rewrite Hwl, Nat.eqb_refl, orb_true_r; reflexivity|exact Hwl|exact Hnext|].
+  rewrite Hsemi, Hnl. cbn [bind].
+  destruct (name_reserved_def name); [apply rrel_E|].
+  destruct (prefix_reserved name); [apply rrel_E|].
+  destruct f as [|f]; [reflexivity|].
+  eapply rrel0_compose.
+  - apply cobj_pos_ext_noline. exact Hp.
+  - rewrite <- (Nat.add_1_r line).
+    apply cobj_shift; [exact Hline|right; exact Hnd|reflexivity|reflexivity|reflexivity].
+Qed.
+
+(* document level: the first definition of a document *)
+Theorem parse_semicolon_newline : forall o name v w1 rest,
+  is_ident name = true -> eqs name include_w = false ->
+  (forall t, delim s1 t = true -> nw s1 false (v ++ t) 1 = TWord w1 t 1) ->
+  val_word w1 = true -> wline w1 = 1 ->
+  next_starts_object rest 2 = true -> not_directive rest 1 ->
+  erase_res (parse o (name ++ "=" :: v ++ nl :: rest)) = erase_res (parse o (name ++ "=" :: v ++ ";" :: rest)).
+Proof.
+  intros o name v w1 rest Hi Hinc Hv Hval Hwl Hnext Hnd. rewrite !parse_objs_of.
+  replace (length (name ++ "=" :: v ++ nl :: rest)) with (length (name ++ "=" :: v ++ ";" :: rest))
+    by (rewrite !app_length; cbn [length]; rewrite !app_length; reflexivity).
+  apply objs_of_rrel0. eapply def_semicolon_newline; eauto.
+Qed.
+
+(* the two kinds of one-word values *)
+Lemma value_unquoted : forall c w line, wstart s1 c = true -> forallb (wchar s1) w = true ->
+  forall t, delim s1 t = true -> nw s1 false ((c :: w) ++ t) line = TWord (mkword (c :: w) QN line) t line.
+Proof. intros c w line Hc Hw t Ht. cbn [app]. apply nw_word; auto. Qed.
+Lemma value_quoted : forall q sv line, q <> QN -> count_nl sv = 0 ->
+  forall t, delim s1 t = true -> nw s1 false (quote_str q sv ++ t) line = TWord (mkword sv q line) t line.
+Proof.
+  intros q sv line Hq Hn t Ht. rewrite nw_quoted; [rewrite Hn, Nat.add_0_r; reflexivity|exact Hq|reflexivity|].
+  intros _ _. destruct t as [|d t]; [reflexivity|]. cbn [prefixb]. rewrite andb_true_r.
+  destruct (Ascii.eqb (qchar q) d) eqn:E; [|reflexivity]. apply Ascii.eqb_eq in E. subst d.
+  cbn [delim] in Ht. destruct (qchar_cases q) as [E|E]; rewrite E in Ht; discriminate Ht.
+Qed.
+
+(* ====================================================================================== *)
+(* 9. Blank space inside a definition: around the "=" sign                                   *)
+(* ====================================================================================== *)
+
+(* at its first step [caw] has collected nothing, so it cannot hand its position back *)
+Lemma caw_pos_ext_nil : forall f s line s' line' hc last lead,
+  nw s1 false s line = nw s1 false s' line' ->
+  caw (S f) s line hc last [] lead = caw (S f) s' line' hc last [] lead.
+Proof.
+  intros f s line s' line' hc last lead H. cbn [caw]. rewrite <- H.
+  destruct (nw s1 false s line) as [|w r l|l]; reflexivity.
+Qed.
+
+Lemma cobj_def_unfold_blanks : forall o f name b1 tl line nid stop start prev active acc,
+  is_ident name = true -> eqs name include_w = false -> forallb isspace b1 = true ->
+  cobj o (S f) (name ++ b1 ++ "=" :: tl) line nid stop start prev active acc
+  = (do (ws, r6, l6) <- caw (S (length tl)) tl (line + count_nl b1) false (mkword name QN line) [] (mkword name QN line) ;
+     if name_reserved_def name then E "Reserved" name line else
+     if prefix_reserved name then E "Reserved" name 0 else
+     cobj o f r6 l6 (S nid) stop start line
+       (Some (adopt (Def (mkhdr name false 0 false nid line) ws []))) (flushed active acc)).
+Proof.
+  intros o f name b1 tl line nid stop start prev active acc Hi Hinc Hb1.
+  assert (Hdel : delim s0 (b1 ++ "=" :: tl) = true).
+  { destruct b1 as [|c b1]; [reflexivity|]. cbn [forallb] in Hb1. apply andb_prop in Hb1 as [Hc _].
+    cbn [app delim]. rewrite Hc. reflexivity. }
+  destruct (nw_s0_ident name (b1 ++ "=" :: tl) line Hi Hdel) as (c & w & -> & Hs & Hb & Hdot & Hn).
+  cbn [cobj]. rewrite Hn. cbn [isq wq wv wline].
+  destruct (lead_tests_plain c w Hs Hb) as (P1 & P2 & P3 & P4).
+  rewrite P1, P2, P3, P4. cbn [andb]. rewrite !andb_false_r.
+  assert (Hpop : pop s0 (b1 ++ "=" :: tl) line
+                 = Ok (mkword ["="] QN (line + count_nl b1), tl, line + count_nl b1)).
+  { unfold pop. rewrite (nw_skip_blanks s0 b1 ("=" :: tl) line Hb1). reflexivity. }
+  assert (Hpopu : pop_unq s0 (b1 ++ "=" :: tl) line
+                 = Ok (mkword ["="] QN (line + count_nl b1), tl, line + count_nl b1)).
+  { unfold pop_unq. rewrite Hpop. reflexivity. }
+  rewrite Hpop. cbn [bind].
+  match goal with |- (if ?b then _ else _) = _ => change b with false end. cbv iota.
+  assert (Hd : prefixb ["."] (c :: w) = false).
+  { cbn [prefixb]. rewrite Ascii.eqb_sym. apply Ascii.eqb_neq in Hdot. rewrite Hdot. reflexivity. }
+  rewrite Hd, Hi, Hinc. cbn [negb]. rewrite Hpopu. cbn [bind].
+  change (expect_eq (mkword ["="] QN (line + count_nl b1))) with (Ok tt : res unit). cbn [bind].
+  reflexivity.
+Qed.
+
+(* any blanks (no newline) between the name, the "=" and the value are irrelevant - exactly *)
+Theorem def_blanks_irrelevant : forall o f name b1 b2 tl line nid stop start prev active acc,
+  is_ident name = true -> eqs name include_w = false ->
+  forallb isspace b1 = true -> forallb isspace b2 = true -> count_nl b1 = 0 -> count_nl b2 = 0 ->
+  cobj o (S f) (name ++ b1 ++ "=" :: b2 ++ tl) line nid stop start prev active acc
+  = cobj o (S f) (name ++ "=" :: tl) line nid stop start prev active acc.
+Proof.
+  intros o f name b1 b2 tl line nid stop start prev active acc Hi Hinc Hb1 Hb2 Hn1 Hn2.
+  rewrite (cobj_def_unfold_blanks o f name b1 (b2 ++ tl)) by assumption.
+  rewrite (cobj_def_unfold o f name tl) by assumption.
+  rewrite Hn1, Nat.add_0_r.
+  rewrite (caw_fuel_enough (S (length tl)) (S (length (b2 ++ tl))) tl) by (rewrite ?app_length; lia).
+  rewrite (caw_pos_ext_nil (length (b2 ++ tl)) (b2 ++ tl) line tl line).
+  - reflexivity.
+  - rewrite (nw_skip_blanks s1 b2 tl line Hb2), Hn2, Nat.add_0_r. reflexivity.
+Qed.
+
+(* ====================================================================================== *)
+(* 10. T4 for values of several words                                                        *)
+(* ====================================================================================== *)
+
+(* the text [pv] (possibly with leading blanks) is read, in value context, as the word [w] *)
+Definition reads (line:nat) (pv:str) (w:word) : Prop :=
+  forall t, delim s1 t = true -> nw s1 false (pv ++ t) line = TWord w t line.
+(* a value text on one line: chunks read as value words, each chunk after the first starting
+   with a delimiter (a blank) *)
+Inductive vtext (line:nat) : str -> list word -> Prop :=
+  | vt_nil : vtext line [] []
+  | vt_cons : forall pv w vs ws, reads line pv w -> val_word w = true -> wline w = line ->
+      (forall t, delim s1 t = true -> delim s1 (vs ++ t) = true) ->
+      vtext line vs ws -> vtext line (pv ++ vs) (w :: ws).
+
+Lemma reads_blank : forall line b pv w, forallb isspace b = true -> count_nl b = 0 ->
+  reads line pv w -> reads line (b ++ pv) w.
+Proof.
+  intros line b pv w Hb Hn H t Ht. rewrite <- app_assoc, (nw_skip_blanks s1 b (pv ++ t) line Hb), Hn, Nat.add_0_r.
+  apply H; exact Ht.
+Qed.
+Lemma last_default : forall {A} ws (x d d':A), last (x :: ws) d = last (x :: ws) d'.
+Proof. intros A ws; induction ws as [|y ws IH]; intros x d d'; [reflexivity|]. change (last (y :: ws) d = last (y :: ws) d'). apply IH. Qed.
+Lemma last_cons : forall {A} (w:A) ws d, last (w :: ws) d = last ws w.
+Proof. intros A w [|x ws] d; [reflexivity|]. change (last (x :: ws) d = last (x :: ws) w). apply last_default. Qed.
+
+Lemma val_word_facts : forall w, val_word w = true ->
+  negb (isq w) && (is1 w "{" || is1 w "}" || is1 w ";" || is1 w "#") = false /\ weq w [bs] = false.
+Proof.
+  intros w Hval. unfold val_word in Hval. unfold weq. destruct (isq w); [split; reflexivity|].
+  cbn [orb negb andb] in *. apply negb_true_iff in Hval. apply orb_false_iff in Hval as [H1 H2]. split; assumption.
+Qed.
+
+Lemma caw_vtext : forall line txt ws, vtext line txt ws ->
+  forall f t last acc lead, delim s1 t = true -> wline last = line ->
+  caw (length ws + f) (txt ++ t) line false last acc lead
+  = caw f t line false (List.last ws last) (rev ws ++ acc) lead.
+Proof.
+  intros line txt ws Hv; induction Hv as [|pv w vs ws Hr Hval Hwl Hdel Hv IH]; intros f t last acc lead Ht Hlast.
+  - reflexivity.
+  - rewrite <- app_assoc. cbn [length Nat.add caw]. rewrite (Hr (vs ++ t) (Hdel t Ht)).
+    destruct (val_word_facts w Hval) as [Hsp Hnb]. cbn [negb andb]. rewrite Hsp.
+    assert (Hnext : caw (length ws + f) (vs ++ t) line false w (w :: acc) lead
+                    = caw f t line false (List.last (w :: ws) last) (rev (w :: ws) ++ acc) lead).
+    { rewrite (IH f t w (w :: acc) lead Ht Hwl). rewrite last_cons. cbn [rev]. rewrite <- app_assoc. reflexivity. }
+    destruct (isq w || weq last [bs]) eqn:E1; [exact Hnext|].
+    rewrite Hwl, Hlast, Nat.eqb_refl. cbn [negb].
+    apply orb_false_iff in E1 as [E1 _]. unfold weq in Hnb. rewrite E1 in Hnb. cbn [negb andb] in Hnb.
+    unfold is1. rewrite Hnb. exact Hnext.
+Qed.
+
+(* the terminator step *)
+Lemma caw_terminator : forall f rest line wl a acc1 lead,
+  weq wl [bs] = false -> wline wl = line -> next_starts_object rest (S line) = true ->
+  exists p,
+    caw (S f) (";" :: rest) line false wl (a :: acc1) lead = Ok (rev (a :: acc1), rest, line)
+    /\ caw (S f) (nl :: rest) line false wl (a :: acc1) lead = Ok (rev (a :: acc1), p, line)
+    /\ nw s0 false p line = nw s0 false rest (S line).
+Proof.
+  intros f rest line wl a acc1 lead Hnb Hwl Hnext. unfold next_starts_object in Hnext.
+  destruct (nw s1 false rest (S line)) as [|w2 r2 l2|l2] eqn:En; [| |discriminate].
+  - exists []. split; [|split].
+    + cbn [caw]. rewrite nw_s1_semicolon. reflexivity.
+    + cbn [caw]. change (nw s1 false (nl :: rest) line) with (nw s1 false rest (S line)). rewrite En. reflexivity.
+    + pose proof (nw_end_blank s1 rest (S line) eq_refl En) as Hb.
+      rewrite <- (app_nil_r rest). rewrite (nw_skip_blanks s0 rest [] (S line) Hb). reflexivity.
+  - exists (nl :: rest). split; [|split].
+    + cbn [caw]. rewrite nw_s1_semicolon. reflexivity.
+    + cbn [caw]. change (nw s1 false (nl :: rest) line) with (nw s1 false rest (S line)). rewrite En.
+      apply andb_prop in Hnext as [Hnext H3]. apply andb_prop in Hnext as [H1 H2].
+      apply negb_true_iff in H1, H2, H3. rewrite H1, H2, H3. cbn [negb andb orb]. rewrite Hnb.
+      destruct (is1 w2 "{" || is1 w2 "}"); cbn [orb]; [reflexivity|].
+      destruct (nw_lines _ _ _ _ _ _ _ En) as (pre & body & _ & Hw2 & _).
+      assert (Hd : (wline w2 =? wline wl)%nat = false) by (apply Nat.eqb_neq; lia).
+      rewrite Hd. reflexivity.
+    + reflexivity.
+Qed.
+
+Theorem caw_semicolon_newline : forall f txt w ws rest line last acc lead,
+  vtext line txt (w :: ws) -> wline last = line -> next_starts_object rest (S line) = true ->
+  exists p,
+    caw (length (w :: ws) + S f) (txt ++ ";" :: rest) line false last acc lead
+      = Ok (rev acc ++ w :: ws, rest, line)
+    /\ caw (length (w :: ws) + S f) (txt ++ nl :: rest) line false last acc lead
+      = Ok (rev acc ++ w :: ws, p, line)
+    /\ nw s0 false p line = nw s0 false rest (S line).
+Proof.
+  intros f txt w ws rest line last acc lead Hv Hlast Hnext.
+  rewrite (caw_vtext line txt (w :: ws) Hv (S f) (";" :: rest) last acc lead eq_refl Hlast).
+  rewrite (caw_vtext line txt (w :: ws) Hv (S f) (nl :: rest) last acc lead eq_refl Hlast).
+  assert (Hl : val_word (List.last (w :: ws) last) = true /\ wline (List.last (w :: ws) last) = line).
+  { clear Hnext. remember (w :: ws) as l eqn:El. assert (Hne : l <> []) by (subst; discriminate). clear El.
+    induction Hv as [|pv w0 vs ws0 Hr Hval Hwl Hdel Hv IH]; [congruence|].
+    rewrite last_cons. destruct ws0 as [|w1 ws0]; [cbn [List.last]; auto|].
+    assert (Hgen : forall d, List.last (w1 :: ws0) d = List.last (w1 :: ws0) last).
+    { intros d. rewrite !last_cons. reflexivity. }
+    rewrite Hgen. apply IH. discriminate. }
+  destruct Hl as [Hval Hwl]. destruct (val_word_facts _ Hval) as [_ Hnb].
+  assert (Hrev : exists a acc1, rev (w :: ws) ++ acc = a :: acc1).
+  { destruct (rev (w :: ws) ++ acc) as [|a acc1] eqn:E; [|eauto].
+    apply (f_equal (@length word)) in E. rewrite app_length, rev_length in E. cbn [length] in E. lia. }
+  destruct Hrev as (a & acc1 & Hrev). rewrite Hrev.
+  destruct (caw_terminator f rest line _ a acc1 lead Hnb Hwl Hnext) as (p & H1 & H2 & H3).
+  exists p. rewrite H1, H2, <- Hrev, rev_app_distr, rev_involutive. auto.
+Qed.
+
+(* T4, general: a definition whose value is any one-line sequence of words *)
+Theorem def_semicolon_newline_words : forall o f name txt w ws rest line nid stop start prev active acc,
+  1 <= line -> is_ident name = true -> eqs name include_w = false ->
+  vtext line txt (w :: ws) ->
+  next_starts_object rest (S line) = true -> not_directive rest line ->
+  rrel Rcobj0 (cobj o (S f) (name ++ "=" :: txt ++ nl :: rest) line nid stop start prev active acc)
+              (cobj o (S f) (name ++ "=" :: txt ++ ";" :: rest) line nid stop start prev active acc).
+Proof.
+  intros o f name txt w ws rest line nid stop start prev active acc Hline Hi Hinc Hv Hnext Hnd.
+  rewrite !cobj_def_unfold by assumption.
+  assert (Hlen : forall term, length (txt ++ term :: rest) = S (length txt + length rest))
+    by (intros; rewrite app_length; cbn [length]; lia).
+  destruct (caw_semicolon_newline (length txt + length rest) txt w ws rest line
+              (mkword name QN line) [] (mkword name QN line) Hv eq_refl Hnext) as (p & Hsemi & Hnl & Hp).
+  rewrite (caw_fuel_enough (S (length (txt ++ nl :: rest))) (length (w :: ws) + S (length txt + length rest)) (txt ++ nl :: rest))
+    by (rewrite ?Hlen; cbn [length]; lia).
+  rewrite (caw_fuel_enough (S (length (txt ++ ";" :: rest))) (length (w :: ws) + S (length txt + length rest)) (txt ++ ";" :: rest))
+    by (rewrite ?Hlen; cbn [length]; lia).
+  rewrite Hsemi, Hnl. cbn [bind].
+  destruct (name_reserved_def name); [apply rrel_E|].
+  destruct (prefix_reserved name); [apply rrel_E|].
+  destruct f as [|f]; [reflexivity|].
+  eapply rrel0_compose.
+  - apply cobj_pos_ext_noline. exact Hp.
+  - rewrite <- (Nat.add_1_r line).
+    apply cobj_shift; [exact Hline|right; exact Hnd|reflexivity|reflexivity|reflexivity].
+Qed.
+
+Theorem parse_semicolon_newline_words : forall o name txt w ws rest,
+  is_ident name = true -> eqs name include_w = false ->
+  vtext 1 txt (w :: ws) ->
+  next_starts_object rest 2 = true -> not_directive rest 1 ->
+  erase_res (parse o (name ++ "=" :: txt ++ nl :: rest)) = erase_res (parse o (name ++ "=" :: txt ++ ";" :: rest)).
+Proof.
+  intros o name txt w ws rest Hi Hinc Hv Hnext Hnd. rewrite !parse_objs_of.
+  replace (length (name ++ "=" :: txt ++ nl :: rest)) with (length (name ++ "=" :: txt ++ ";" :: rest))
+    by (rewrite !app_length; cbn [length]; rewrite !app_length; reflexivity).
+  apply objs_of_rrel0. eapply def_semicolon_newline_words; eauto.
+Qed.
+
+(* ====================================================================================== *)
+(* 10b. A trailing "# comment" after a value                                                 *)
+(* ====================================================================================== *)
+
+(* comment text without quotes, backslashes and newlines (a quote in a trailing comment opens a
+   quoted word: finding F14; a final backslash continues the comment onto the next line) *)
+Definition plainc (c:ascii) : bool :=
+  negb (Ascii.eqb c dq) && negb (Ascii.eqb c sq) && negb (Ascii.eqb c nl) && negb (Ascii.eqb c bs).
+Definition plainb (b:str) : bool := forallb plainc b.
+
+Lemma take_s1_app : forall x rest, exists w r', x = w ++ r' /\ take s1 (x ++ nl :: rest) = (w, r' ++ nl :: rest).
+Proof.
+  induction x as [|c x IH]; intros rest.
+  - exists [], []. split; reflexivity.
+  - cbn [app take]. destruct (isspace c); [exists [], (c :: x); split; reflexivity|].
+    destruct (mem c (single s1)); [exists [], (c :: x); split; reflexivity|].
+    cbn [contig_any contig s1 negb andb].
+    destruct (IH rest) as (w & r' & Hx & Ht). rewrite Ht. exists (c :: w), r'. split; [cbn [app]; f_equal; exact Hx|reflexivity].
+Qed.
+Lemma plainb_app : forall a b, plainb (a ++ b) = true -> plainb a = true /\ plainb b = true.
+Proof. intros a b H. unfold plainb in *. rewrite forallb_app in H. apply andb_prop in H. exact H. Qed.
+Lemma plainc_facts : forall c, plainc c = true ->
+  Ascii.eqb c dq = false /\ Ascii.eqb c sq = false /\ Ascii.eqb c nl = false /\ Ascii.eqb c bs = false.
+Proof.
+  intros c H. unfold plainc in H. apply andb_prop in H as [H H4]. apply andb_prop in H as [H H3].
+  apply andb_prop in H as [H1 H2]. apply negb_true_iff in H1, H2, H3, H4. auto.
+Qed.
+Lemma plainb_no_bs : forall v, plainb v = true -> eqs v [bs] = false.
+Proof.
+  intros [|c [|d v]] H; try reflexivity.
+  - cbn [plainb forallb] in H. apply andb_prop in H as [H _]. destruct (plainc_facts c H) as (_ & _ & _ & Hb).
+    cbn [eqs]. rewrite Hb. reflexivity.
+  - cbn [eqs]. rewrite andb_false_r. reflexivity.
+Qed.
+
+(* the first value-context token of a plain rest-of-line *)
+Lemma nw_s1_plain_line : forall body rest line, plainb body = true ->
+  forallb isspace body = true
+  \/ exists w r', nw s1 false (body ++ nl :: rest) line = TWord w (r' ++ nl :: rest) line
+       /\ isq w = false /\ wline w = line /\ plainb (wv w) = true
+       /\ length r' < length body /\ plainb r' = true.
+Proof.
+  induction body as [|c x IH]; intros rest line Hp; [left; reflexivity|].
+  cbn [plainb forallb] in Hp. apply andb_prop in Hp as [Hc Hx]. fold (plainb x) in Hx.
+  destruct (plainc_facts c Hc) as (H1 & H2 & H3 & H4).
+  assert (Hbump : bump c line = line) by (unfold bump; rewrite H3; reflexivity).
+  destruct (isspace c) eqn:Es.
+  - destruct (IH rest line Hx) as [Hb|(w & r' & Hn & Hq & Hl & Hw & Hlen & Hr)].
+    + left. cbn [forallb]. rewrite Es, Hb. reflexivity.
+    + right. exists w, r'. cbn [app nw]. rewrite Es, Hbump. repeat split; try assumption. cbn [length]. lia.
+  - right. cbn [app nw]. rewrite Es, Hbump, H1, H2. cbn [comment s1 mem andb orb].
+    destruct (negb (mem c (single s1)) && (contig_any s1 || mem c (contig s1))).
+    + destruct (take_s1_app x rest) as (w & r' & Hx' & Ht). rewrite Ht.
+      exists (mkword (c :: w) QN line), r'. rewrite Hx' in Hx. destruct (plainb_app _ _ Hx) as [Hw Hr].
+      repeat split; try assumption.
+      * cbn [wv plainb forallb]. rewrite Hc. exact Hw.
+      * rewrite Hx'. cbn [length]. rewrite app_length. lia.
+    + exists (mkword [c] QN line), x. repeat split; try assumption.
+      * cbn [wv plainb forallb]. rewrite Hc. reflexivity.
+      * cbn [length]. lia.
+Qed.
+
+Definition next_unquoted (rest:str) (line:nat) : bool :=
+  match nw s1 false rest line with TEnd => true | TWord w2 _ _ => negb (isq w2) | TErrQuote _ => false end.
+
+(* in comment mode [caw] skips the rest of the line and stops before the next line *)
+Lemma caw_comment_line : forall n body, length body <= n -> plainb body = true ->
+  forall F rest line last a acc lead,
+  wline last = line -> weq last [bs] = false -> next_unquoted rest (S line) = true ->
+  length (body ++ nl :: rest) < F ->
+  exists p, caw F (body ++ nl :: rest) line true last (a :: acc) lead = Ok (rev (a :: acc), p, line)
+            /\ nw s0 false p line = nw s0 false rest (S line).
+Proof.
+  induction n as [|n IH]; intros body Hn Hp F rest line last a acc lead Hl Hnb Hnext HF.
+  all: destruct F as [|F]; [lia|].
+  all: destruct (nw_s1_plain_line body rest line Hp) as [Hb|(w & r' & Htok & Hq & Hwl & Hw & Hlen & Hr)].
+  all: try (exfalso; lia).
+  (* the rest of the line is blank: the next token stands on a later line *)
+  1,2: assert (Hskip : forall σ, nw σ false (body ++ nl :: rest) line = nw σ false rest (S line));
+       [intros σ; replace (body ++ nl :: rest) with ((body ++ [nl]) ++ rest) by (rewrite <- app_assoc; reflexivity);
+        rewrite nw_skip_blanks by (rewrite forallb_app, Hb; reflexivity);
+        rewrite count_nl_app;
+        replace (count_nl body) with 0
+          by (symmetry; apply count_nl_none; clear -Hp; induction body as [|c x IHx]; [reflexivity|];
+              cbn [plainb forallb] in Hp; apply andb_prop in Hp as [Hc Hx]; destruct (plainc_facts c Hc) as (_ & _ & H3 & _);
+              cbn [mem]; rewrite Ascii.eqb_sym, H3; apply IHx; exact Hx);
+        f_equal; cbn; lia|].
+  1,2: cbn [caw]; rewrite (Hskip s1); unfold next_unquoted in Hnext;
+       destruct (nw s1 false rest (S line)) as [|w2 r2 l2|l2] eqn:En; [| |discriminate Hnext].
+  1,3: exists []; split; [reflexivity|];
+       pose proof (nw_end_blank s1 rest (S line) eq_refl En) as Hbl;
+       rewrite <- (app_nil_r rest); rewrite (nw_skip_blanks s0 rest [] (S line) Hbl); reflexivity.
+  1,2: exists (body ++ nl :: rest); split; [|apply Hskip];
+       apply negb_true_iff in Hnext; rewrite Hnext, Hnb; cbn [negb andb orb];
+       destruct (nw_lines _ _ _ _ _ _ _ En) as (pre & bd & _ & Hw2 & _);
+       assert (Hd : (wline w2 =? wline last)%nat = false) by (apply Nat.eqb_neq; lia);
+       rewrite Hd; reflexivity.
+  (* a comment word: skipped *)
+  cbn [caw]. rewrite Htok. cbn [negb andb]. rewrite Hq, Hnb, Hwl, Hl, Nat.eqb_refl. cbn [orb negb].
+  apply (IH r' ltac:(lia) Hr F rest line w a acc lead Hwl); [|exact Hnext|].
+  - unfold weq. rewrite Hq, (plainb_no_bs _ Hw). reflexivity.
+  - rewrite app_length in *. cbn [length] in *. lia.
+Qed.
+
+Theorem caw_trailing_comment : forall F b body rest line last a acc lead,
+  forallb isspace b = true -> count_nl b = 0 ->
+  plainb body = true -> delim s1 (body ++ [nl]) = true ->
+  next_unquoted rest (S line) = true ->
+  S (length (b ++ "#" :: body ++ nl :: rest)) < F ->
+  exists p, caw F (b ++ "#" :: body ++ nl :: rest) line false last (a :: acc) lead = Ok (rev (a :: acc), p, line)
+            /\ nw s0 false p line = nw s0 false rest (S line).
+Proof.
+  intros F b body rest line last a acc lead Hb Hn Hp Hd Hnext HF.
+  destruct F as [|F]; [lia|].
+  assert (Htok : nw s1 false (b ++ "#" :: body ++ nl :: rest) line
+                 = TWord (mkword ["#"] QN line) (body ++ nl :: rest) line).
+  { rewrite (nw_skip_blanks s1 b _ line Hb), Hn, Nat.add_0_r.
+    apply (nw_word s1 "#" [] (body ++ nl :: rest) line eq_refl eq_refl eq_refl).
+    destruct body as [|c x]; [reflexivity|exact Hd]. }
+  cbn [caw]. rewrite Htok. cbn [negb andb isq wq is1 wv eqs Ascii.eqb Bool.eqb orb].
+  apply (caw_comment_line (length body) body (le_n _) Hp F rest line (mkword ["#"] QN line) a acc lead);
+    [reflexivity|reflexivity|exact Hnext|].
+  rewrite !app_length in *. cbn [length] in *. rewrite app_length in HF. cbn [length] in HF. lia.
+Qed.
+
+Lemma next_starts_unquoted : forall rest line, next_starts_object rest line = true -> next_unquoted rest line = true.
+Proof.
+  intros rest line H. unfold next_starts_object, next_unquoted in *.
+  destruct (nw s1 false rest line); try assumption.
+  apply andb_prop in H as [H _]. apply andb_prop in H as [H _]. exact H.
+Qed.
+
+(* T3 (trailing comments), at any [cobj] iteration: "name=words  # text<newline>rest" is read
+   exactly like "name=words<newline>rest" *)
+Theorem def_trailing_comment : forall o f name txt w ws b body rest line nid stop start prev active acc,
+  is_ident name = true -> eqs name include_w = false ->
+  vtext line txt (w :: ws) ->
+  forallb isspace b = true -> count_nl b = 0 -> b <> [] ->
+  plainb body = true -> delim s1 (body ++ [nl]) = true ->
+  next_starts_object rest (S line) = true ->
+  cobj_noline (cobj o (S f) (name ++ "=" :: txt ++ b ++ "#" :: body ++ nl :: rest) line nid stop start prev active acc)
+  = cobj_noline (cobj o (S f) (name ++ "=" :: txt ++ nl :: rest) line nid stop start prev active acc).
+Proof.
+  intros o f name txt w ws b body rest line nid stop start prev active acc Hi Hinc Hv Hb Hn Hbne Hp Hd Hnext.
+  rewrite !cobj_def_unfold by assumption.
+  set (lead := mkword name QN line).
+  (* the side with the comment *)
+  set (t1 := b ++ "#" :: body ++ nl :: rest).
+  assert (Hdt1 : delim s1 t1 = true).
+  { unfold t1. destruct b as [|c b']; [congruence|]. cbn [forallb] in Hb. apply andb_prop in Hb as [Hc _].
+    cbn [app delim]. rewrite Hc. reflexivity. }
+  set (F1 := S (S (length txt + length t1))).
+  rewrite (caw_fuel_enough (S (length (txt ++ t1))) (length (w :: ws) + F1) (txt ++ t1))
+    by (unfold F1; rewrite ?app_length; cbn [length]; lia).
+  rewrite (caw_vtext line txt (w :: ws) Hv F1 t1 lead [] lead Hdt1 eq_refl).
+  assert (Hrev : exists a acc1, rev (w :: ws) ++ [] = a :: acc1).
+  { destruct (rev (w :: ws) ++ []) as [|a acc1] eqn:E; [|eauto].
+    apply (f_equal (@length word)) in E. rewrite app_length, rev_length in E. cbn [length] in E. lia. }
+  destruct Hrev as (a & acc1 & Hrev). rewrite Hrev.
+  destruct (caw_trailing_comment F1 b body rest line (List.last (w :: ws) lead) a acc1 lead Hb Hn Hp Hd
+              (next_starts_unquoted _ _ Hnext) ltac:(unfold F1, t1; lia)) as (p1 & Hc1 & Hp1).
+  fold t1 in Hc1. rewrite Hc1.
+  (* the side without *)
+  destruct (caw_semicolon_newline (length txt + length rest) txt w ws rest line lead [] lead Hv eq_refl Hnext)
+    as (p2 & _ & Hc2 & Hp2).
+  rewrite (caw_fuel_enough (S (length (txt ++ nl :: rest))) (length (w :: ws) + S (length txt + length rest)) (txt ++ nl :: rest))
+    by (rewrite ?app_length; cbn [length]; lia).
+  rewrite Hc2. cbn [bind]. rewrite <- Hrev, rev_app_distr, rev_involutive. cbn [rev app].
+  destruct (name_reserved_def name); [reflexivity|].
+  destruct (prefix_reserved name); [reflexivity|].
+  destruct f as [|f]; [reflexivity|].
+  apply cobj_pos_ext_noline. rewrite Hp1, Hp2. reflexivity.
+Qed.
+
+Theorem parse_trailing_comment : forall o name txt w ws b body rest,
+  is_ident name = true -> eqs name include_w = false ->
+  vtext 1 txt (w :: ws) ->
+  forallb isspace b = true -> count_nl b = 0 -> b <> [] ->
+  plainb body = true -> delim s1 (body ++ [nl]) = true ->
+  next_starts_object rest 2 = true ->
+  parse o (name ++ "=" :: txt ++ b ++ "#" :: body ++ nl :: rest) = parse o (name ++ "=" :: txt ++ nl :: rest).
+Proof.
+  intros o name txt w ws b body rest Hi Hinc Hv Hb Hn Hbne Hp Hd Hnext. rewrite !parse_objs_of.
+  apply objs_of_noline.
+  rewrite (cobj_fuel_enough o (S (S (length (name ++ "=" :: txt ++ nl :: rest))))
+             (S (S (length (name ++ "=" :: txt ++ b ++ "#" :: body ++ nl :: rest)))) (name ++ "=" :: txt ++ nl :: rest))
+    by (rewrite ?app_length; cbn [length]; rewrite ?app_length; cbn [length]; rewrite ?app_length; cbn [length]; lia).
+  eapply def_trailing_comment; eauto.
+Qed.
+
+(* ====================================================================================== *)
+(* 11. Examples (non-vacuity; every premise is satisfiable, every side condition needed)  *)
+(* ====================================================================================== *)
+
+Definition run (s:str) := cobj [] 40 s 1 1 false None 0 None [].
+
+(* T1: the exact statement needs its side conditions: at the end of an unbraced input [cobj]
+   hands the start line back, and [caw] hands its start position back before a brace *)
+Example T1_line_leak :
+  nw s0 false (s_ " 
+") 1 = nw s0 false [] 2
+  /\ cobj [] 5 (s_ " 
+") 1 1 false None 0 None [] = Ok ([], [], 1, 1)
+  /\ cobj [] 5 [] 2 1 false None 0 None [] = Ok ([], [], 2, 1).
+Proof. vm_compute. auto. Qed.
+Example T1_caw_hands_back :
+  nw s1 false (s_ " }") 1 = nw s1 false (s_ "}") 1
+  /\ caw 5 (s_ " }") 1 false (uw []) [uw []] (uw []) = Ok ([uw []], s_ " }", 1)
+  /\ caw 5 (s_ "}") 1 false (uw []) [uw []] (uw []) = Ok ([uw []], s_ "}", 1).
+Proof. vm_compute. auto. Qed.
+Example T1_example :
+  cobj [] 9 (s_ "  a=1;b{c=2}") 1 1 false None 0 None [] = cobj [] 9 (s_ "a=1;b{c=2}") 1 1 false None 0 None [].
+Proof. apply (cobj_pos_ext [] 8); [reflexivity|right; left; reflexivity]. Qed.
+
+(* T2 *)
+Example T2_example :
+  cobj [] 12 (s_ "a=1;b{c=2}") 1 1 false None 0 None [] = cobj [] 300 (s_ "a=1;b{c=2}") 1 1 false None 0 None []
+  /\ cobj [] 2 (s_ "a=1;b{c=2}") 1 1 false None 0 None [] = OOF.
+Proof. split; [apply cobj_fuel_enough; cbn; lia|vm_compute; reflexivity]. Qed.
+
+(* T3 *)
+Example layout_example : layout (s_ " 
+# a note {;} 'quote
+	 ").
+Proof.
+  apply layout_blank; [reflexivity|]. apply layout_blank; [reflexivity|].
+  apply (layout_comment (s_ " a note {;} 'quote") (s_ "	 ")); [reflexivity|reflexivity|].
+  repeat (apply layout_blank; [reflexivity|]). apply layout_nil.
+Qed.
+Example T3_example :
+  erase_res (parse [] (s_ " 
+# a note {;} 'quote
+	 a = 1
+b { c = 2 }")) = erase_res (parse [] (s_ "a = 1
+b { c = 2 }"))
+  /\ parse [] (s_ " 
+a = 1") <> parse [] (s_ "a = 1")                          (* the lines do differ *)
+  /\ exists l, parse [] (s_ "a = 1
+b { c = 2 }") = Ok l /\ length l = 2.
+Proof.
+  split; [|split].
+  - apply (parse_layout_prefix [] _ _ layout_example).
+  - vm_compute. discriminate.
+  - vm_compute. eexists; split; reflexivity.
+Qed.
+(* blanks before a nested object, and before the closing brace: exactly the same result *)
+Example T3_nested_example : forall nid acc,
+  cobj [] 30 (s_ "  
+   c = 2 }") 4 nid true (Some (uw (s_ "{"))) 0 None acc
+  = cobj [] 30 (s_ "c = 2 }") 5 nid true (Some (uw (s_ "{"))) 0 None acc.
+Proof. intros. apply (cobj_skip_blanks [] 30 (s_ "  
+   ")); [reflexivity|left; reflexivity]. Qed.
+Example def_blanks_example :
+  run (s_ "ab 	 =   1 2
+c=3") = run (s_ "ab=1 2
+c=3").
+Proof.
+  apply (def_blanks_irrelevant [] 39 (s_ "ab") (s_ " 	 ") (s_ "   ")); reflexivity.
+Qed.
+
+(* T4 *)
+Example vtext_example :
+  vtext 1 (s_ "1.5  'x y' z") [mkword (s_ "1.5") QN 1; mkword (s_ "x y") Q1 1; mkword (s_ "z") QN 1].
+Proof.
+  apply (vt_cons 1 (s_ "1.5") _ (s_ "  'x y' z")); try reflexivity.
+  { exact (value_unquoted "1" (s_ ".5") 1 eq_refl eq_refl). }
+  apply (vt_cons 1 (s_ "  'x y'") _ (s_ " z")); try reflexivity.
+  { apply (reads_blank 1 (s_ "  ") (s_ "'x y'")); try reflexivity.
+    exact (value_quoted Q1 (s_ "x y") 1 ltac:(discriminate) eq_refl). }
+  rewrite <- (app_nil_r (s_ " z")).
+  apply (vt_cons 1 (s_ " z") _ []); try reflexivity.
+  { apply (reads_blank 1 (s_ " ") (s_ "z")); try reflexivity. exact (value_unquoted "z" [] 1 eq_refl eq_refl). }
+  { intros t Ht; exact Ht. }
+  apply vt_nil.
+Qed.
+Example T4_example :
+  erase_res (parse [] (s_ "a=1.5  'x y' z
+b { c = 2 }")) = erase_res (parse [] (s_ "a=1.5  'x y' z;b { c = 2 }"))
+  /\ exists l, parse [] (s_ "a=1.5  'x y' z;b { c = 2 }") = Ok l /\ length l = 2.
+Proof.
+  split.
+  - eapply (parse_semicolon_newline_words [] (s_ "a") (s_ "1.5  'x y' z") _ _ (s_ "b { c = 2 }"));
+      [reflexivity|reflexivity|exact vtext_example|reflexivity|reflexivity].
+  - vm_compute. eexists; split; reflexivity.
+Qed.
+(* the two premises on what follows are needed: a quoted word on the next line continues the
+   value, and a "#phil" directive is honoured only on a line of its own *)
+Example T4_quoted_next_line_differs :
+  erase_res (parse [] (s_ "a=1
+'x'")) <> erase_res (parse [] (s_ "a=1;'x'")).
+Proof. vm_compute. discriminate. Qed.
+Example T4_directive_differs :
+  erase_res (parse [] (s_ "a=1
+#phil __OFF__
+b=2")) <> erase_res (parse [] (s_ "a=1;#phil __OFF__
+b=2")).
+Proof. vm_compute. discriminate. Qed.
+
+(* trailing comment *)
+Example T3_trailing_comment_example :
+  parse [] (s_ "a=1 zz 	# note {;} x = y
+b { c = 2 }") = parse [] (s_ "a=1 zz
+b { c = 2 }")
+  /\ exists l, parse [] (s_ "a=1 zz
+b { c = 2 }") = Ok l /\ length l = 2.
+Proof.
+  split; [|vm_compute; eexists; split; reflexivity].
+  eapply (parse_trailing_comment [] (s_ "a") (s_ "1 zz") (mkword (s_ "1") QN 1) [mkword (s_ "zz") QN 1]
+            (s_ " 	") (s_ " note {;} x = y") (s_ "b { c = 2 }"));
+    try reflexivity; [|discriminate].
+  apply (vt_cons 1 (s_ "1") _ (s_ " zz")); try reflexivity.
+  { exact (value_unquoted "1" [] 1 eq_refl eq_refl). }
+  rewrite <- (app_nil_r (s_ " zz")).
+  apply (vt_cons 1 (s_ " zz") _ []); try reflexivity.
+  { apply (reads_blank 1 (s_ " ") (s_ "zz")); try reflexivity. exact (value_unquoted "z" (s_ "z") 1 eq_refl eq_refl). }
+  { intros t Ht; exact Ht. }
+  apply vt_nil.
+Qed.
+(* F14: a quote at the start of a comment word opens a quoted word, so [plainb] is needed *)
+Example T3_comment_quote_differs :
+  parse [] (s_ "a=1 # 'tis
+b=3") <> parse [] (s_ "a=1
+b=3").
+Proof. vm_compute. discriminate. Qed.
+
+(* T5 *)
+Example T5_example :
+  parse [] (s_ "!a = 1
+.help = h
+b = 2") = on_first set_dis (parse [] (s_ "a = 1
+.help = h
+b = 2"))
+  /\ exists x y, parse [] (s_ "a = 1
+.help = h
+b = 2") = Ok [x; y] /\ odis (ohdr x) = false /\ odis (ohdr (set_dis x)) = true.
+Proof.
+  split.
+  - apply (bang_simple [] (s_ "a")); reflexivity.
+  - vm_compute. eexists _, _. split; [reflexivity|split; reflexivity].
+Qed.
+Example T5_dotted_scope_example :
+  parse [] (s_ "!s.t { x = 1 }
+y = 2") = on_first (dis_depth 1) (parse [] (s_ "s.t { x = 1 }
+y = 2"))
+  /\ exists h1 h2 ks a1 a2 y, parse [] (s_ "!s.t { x = 1 }
+y = 2") = Ok [Scp h1 [Scp h2 ks a2] a1; y] /\ odis h1 = false /\ odis h2 = true.
+Proof.
+  split.
+  - apply (bang_object [] (s_ "s.t")); reflexivity.
+  - vm_compute. eexists _, _, _, _, _, _. split; [reflexivity|split; reflexivity].
+Qed.
+Example T5_error_example :
+  parse [] (s_ "!a = ") = parse [] (s_ "a = ") /\ parse [] (s_ "a = ") = E "MissingValue" (s_ "a") 1.
+Proof.
+  split; [|vm_compute; reflexivity].
+  change (parse [] ("!" :: s_ "a" ++ s_ " = ") = parse [] (s_ "a" ++ s_ " = ")).
+  rewrite (bang_simple [] (s_ "a") (s_ " = ")) by reflexivity. vm_compute. reflexivity.
+Qed.
+(* a disabled attribute line is dropped unconverted: even a value that would be refused *)
+Example T5_attr_example :
+  (exists x, parse [] (s_ "a = 1
+!.optional = maybe
+") = Ok [x] /\ oattrs x = [])
+  /\ parse [] (s_ "a = 1
+.optional = maybe
+") = E "NotBool" (s_ "maybe") 2.
+Proof. split; vm_compute; [eexists; split; reflexivity|reflexivity]. Qed.
+
+Example T5_scope_attr_example :
+  (exists x, parse [] (s_ "s !.optional = maybe { x = 1 }") = Ok [x] /\ oattrs x = [])
+  /\ parse [] (s_ "s .optional = maybe { x = 1 }") = E "NotBool" (s_ "maybe") 1.
+Proof. split; vm_compute; [eexists; split; reflexivity|reflexivity]. Qed.
+
+(* ====================================================================================== *)
+(* 12. Assumptions                                                                           *)
+(* ====================================================================================== *)
+Print Assumptions cobj_pos_ext.
+Print Assumptions cobj_pos_ext_noline.
+Print Assumptions caw_pos_ext.
+Print Assumptions sattrs_pos_ext.
+Print Assumptions caw_fuel_irrelevant.
+Print Assumptions sattrs_fuel_irrelevant.
+Print Assumptions cobj_fuel_irrelevant.
+Print Assumptions caw_fuel_enough.
+Print Assumptions sattrs_fuel_enough.
+Print Assumptions cobj_fuel_enough.
+Print Assumptions cobj_skip_blanks.
+Print Assumptions cobj_skip_blanks_noline.
+Print Assumptions cobj_skip_comment.
+Print Assumptions cobj_skip_comment_noline.
+Print Assumptions caw_skip_blanks.
+Print Assumptions parse_leading_blanks_same_line.
+Print Assumptions cobj_layout.
+Print Assumptions cobj_layout_noline.
+Print Assumptions parse_layout_prefix.
+Print Assumptions parse_leading_blanks.
+Print Assumptions parse_leading_comment.
+Print Assumptions def_blanks_irrelevant.
+Print Assumptions nw_shift.
+Print Assumptions cobj_shift.
+Print Assumptions caw_semicolon_newline_single.
+Print Assumptions caw_semicolon_newline.
+Print Assumptions def_semicolon_newline.
+Print Assumptions def_semicolon_newline_words.
+Print Assumptions parse_semicolon_newline.
+Print Assumptions parse_semicolon_newline_words.
+Print Assumptions caw_trailing_comment.
+Print Assumptions def_trailing_comment.
+Print Assumptions parse_trailing_comment.
+Print Assumptions nw_word.
+Print Assumptions nw_s0_word.
+Print Assumptions nw_bang.
+Print Assumptions cobj_acc_app.
+Print Assumptions cobj_active_map.
+Print Assumptions cobj_bang.
+Print Assumptions parse_bang.
+Print Assumptions bang_object.
+Print Assumptions bang_simple.
+Print Assumptions bang_attr.
+Print Assumptions bang_scope_attr.
